@@ -300,11 +300,16 @@ def _samples(results):
     return out
 
 
-def relock(props=None):
+def relock(only=None):
+    """Regenerate the ledger; with `only` (names as they appear in the ledger), re-verify just those and merge."""
     reg = load_all_contracts()
     items = [("contract", n) for n in reg.contracts] + [("lemma", n) for n in reg.lemmas] + [("static", n) for n in reg.statics] + [("step", n) for n in reg.steps] + [("roundtrip", n) for n in reg.roundtrips]
-    results = run_items(items, limit_s=1500)
     led = {}
+    if only:
+        led = json.load(open(LEDGER))
+        pref = {"lemma": "lemma:", "static": "static:", "step": "step:", "roundtrip": "roundtrip:", "contract": ""}
+        items = [(k, n) for k, n in items if pref[k] + n in only or n in only]
+    results = run_items(items, limit_s=1500)
     for r in results:
         led[r["contract"]] = {"status": r["status"], "obligations": sorted({o["label"] for o in r["obligations"]}), "vcs": len(r["obligations"])}
     json.dump(led, open(LEDGER, "w"), indent=1, sort_keys=True)
@@ -315,7 +320,7 @@ if __name__ == "__main__":
     import sys
 
     if sys.argv[1] == "relock":
-        led = relock()
+        led = relock(set(sys.argv[2:]) or None)
         for k, v in sorted(led.items()):
             print(f"{v['status']:12s} {k} vcs={v['vcs']}")
     else:
